@@ -4,7 +4,7 @@ usage: seed_matrix.py [seed-id ...]   (default: all).  Never run concurrently wi
 import json, os, subprocess, sys, time
 V = "/verif"
 PLAN = {   # seed -> [(property, extra args)]
-    "C06-m1": [("C06", ["--only", "k_zoned_fixed_add_mixed|k_zoned_fixed_add_time"])],
+    "C06-m1": [("C06", ["--only", "k_span_split|k_zoned_fixed_add_time"])],
     "C06-m2": [("C06", [])],
     "C11-m1": [("C11", ["--only", "k_span_balance_24h"])],
     "C11-m2": [("C11", ["--only", "k_span_round_24h$|k_span_round_24h_day"])],
@@ -45,6 +45,9 @@ for sid in seeds:
         rows.append((sid, "patch does not apply: " + r.stderr.strip()[:200], []))
         continue
     res = []
+    # the checks rewrite evidence/<id>.json; runs against a patched tree must not leave their evidence behind
+    saved = {pid: (open(os.path.join(V, "evidence", pid + ".json")).read() if os.path.exists(os.path.join(V, "evidence", pid + ".json")) else None)
+             for pid, _ in PLAN[sid]}
     try:
         for pid, extra in PLAN[sid]:
             t0 = time.time()
@@ -54,6 +57,9 @@ for sid in seeds:
                         "summary": p.stdout.strip().split("\n")[-1][:300], "secs": round(time.time() - t0, 1)})
     finally:
         subprocess.run(["git", "-C", "/repo", "checkout", "--", "."])
+        for pid, txt in saved.items():
+            if txt is not None:
+                open(os.path.join(V, "evidence", pid + ".json"), "w").write(txt)
     detected = [x["check"] for x in res if x["exit"] == 1 and x["violation_lines"]]
     mp = os.path.join(d, "meta.json")
     meta = json.load(open(mp))
